@@ -567,3 +567,7 @@ def run(ck):
     ck.attempt(rule_interface, g)
     ck.attempt(rule_defaults)
     ck.attempt(rule_none_matrix)
+    # "the interface-side and algorithm-side checks agree with the network-side one": they work on the description the interface builds,
+    # which must be computed from the network as it is now (shared with C05)
+    from .c05 import rule_stateless_view
+    ck.attempt(rule_stateless_view, rid="C06.R8")
